@@ -141,6 +141,7 @@ type Sched struct {
 	workerParked bool
 	workerBatch  []*ledger.ChainedLog
 	workerResume chan int
+	workerCh     chan int // the channel the parked store call waits on
 	inFlight     map[int]int // per generation: store calls entered and not yet returned
 	Overtakes    int // store calls that entered while another was in flight and were let through first
 	pending      int
@@ -750,6 +751,7 @@ func (s *Sched) absorb(n note, waitingThread *bool, expectTid int) {
 		}
 		s.workerParked = true
 		s.workerBatch = n.intent.([]*ledger.ChainedLog)
+		s.workerCh = n.wch
 		s.pending -= len(s.workerBatch)
 		return
 	}
@@ -843,7 +845,7 @@ func (s *Sched) do(c Choice) Choice {
 		s.mu.Unlock()
 	case "persist_ok":
 		s.workerParked = false
-		s.workerResume <- 1
+		s.workerCh <- 1
 		// the worker writes to the disk after being resumed: wait until the batch is visible
 		want := s.workerBatch
 		deadline := time.Now().Add(5 * time.Second)
@@ -871,13 +873,13 @@ func (s *Sched) do(c Choice) Choice {
 		t.cancel()
 	case "persist_fail":
 		s.workerParked = false
-		s.workerResume <- 0
+		s.workerCh <- 0
 		s.crash()
 	case "persist_fail_ctx":
 		// the store fails with an error of kind context.Canceled: the unchanged runner dies like for any other
 		// store failure; give a wrongly surviving runner a moment to acknowledge before the generation is abandoned
 		s.workerParked = false
-		s.workerResume <- 2
+		s.workerCh <- 2
 		s.pending = 0 // the runner is expected to die: do not wait for it to take another batch
 		deadline := time.Now().Add(300 * time.Millisecond)
 		for time.Now().Before(deadline) {
